@@ -109,6 +109,7 @@ pub use crate::fixer::verif_hooks as fixer;
 pub use crate::fixer::SerializableFixer;
 pub use crate::maybe::Maybe;
 pub use crate::rule::nth_child_hooks as nth_child;
+pub use crate::rule::range_hooks as range;
 pub use crate::rule::relational_hooks as relational;
 pub use crate::rule::{
   HookNthChild as SerializableNthChild, HookRange as SerializableRange, NthChildSimple,
